@@ -1,6 +1,7 @@
 package sctp
 
 import (
+	"context"
 	"errors"
 	"fmt"
 	"time"
@@ -259,8 +260,36 @@ func hsScenario(spec *hsSpec) *Scenario {
 					if !m.probeStreams("stale.probe", sa, sb, 10+2*i) {
 						break
 					}
+					// ... and the probes are acknowledged: nothing stays buffered on either side
+					if !m.WaitUntil("stale-drained", 30*time.Second, func() bool { return drained(m.As[0]) && drained(m.As[1]) }) {
+						m.Failf("stale.stall", "after a stale %s the probe messages were delivered but never acknowledged: buffered A=%d B=%d", p.dec.Summary(), bufAmt(m.As[0]), bufAmt(m.As[1]))
+						break
+					}
 				}
 				checkMetadata(m, spec.A, spec.B)
+				// the same stale packets arrive while endpoint 0 is shutting down: the shutdown
+				// still completes (a handshake packet must not revive the association)
+				if len(m.viol) == 0 {
+					var serr error
+					done := false
+					sh := m.Go("shutdown0", func() {
+						ctx, cancel := context.WithTimeout(context.Background(), 60*time.Second)
+						defer cancel()
+						serr = m.As[0].Shutdown(ctx)
+						done = true
+					})
+					m.WaitUntil("shutdown-begun", 5*time.Second, func() bool { return m.As[0].getState() != established })
+					for _, p := range hs {
+						if p.from == 1 {
+							m.W.inject(0, p.data)
+						}
+					}
+					m.WaitUntil("shutdown-done", 70*time.Second, func() bool { return done })
+					m.S.Join(sh)
+					if serr != nil {
+						m.Failf("stale.shutdown", "stale handshake packets arriving during Shutdown: Shutdown returned %v (state A=%s B=%s)", serr, getAssociationStateString(m.As[0].getState()), getAssociationStateString(m.As[1].getState()))
+					}
+				}
 			}
 			m.CloseBoth()
 		},
